@@ -39,7 +39,7 @@ func VInv(m *Map[int, int]) {
 	for _, k := range m.forwardMap.Keys() {
 		x, _ := m.forwardMap.Get(k)
 		kk, ok := m.inverseMap.Get(x)
-		v.Assert(v.And(ok, kk == k), "C10:inv-mutual-inverse")
+		v.Assert(v.And(ok, vl.Equiv(kk, k)), "C10:inv-mutual-inverse") // up to key equivalence: which representative is kept is not specified
 	}
 }
 
